@@ -227,3 +227,20 @@ func argsAfterTier() []string {
 func jsonUnmarshal(b []byte, v any) { _ = json.Unmarshal(b, v) }
 
 func os_Getenv(k string) string { return os.Getenv(k) }
+
+// purger drops per-path monitor state of levels the BFS has left behind (the search is level by
+// level: once a pre-state of depth d is seen, no state of depth < d is expanded again), so that a
+// monitor's map keyed by *SNode does not keep every visited state alive.
+type purger struct{ depth int }
+
+func purgeOld[V any](p *purger, m map[*chainsim.SNode]V, pre *chainsim.SNode) {
+	if pre.Depth <= p.depth {
+		return
+	}
+	p.depth = pre.Depth
+	for k := range m {
+		if k.Depth < pre.Depth {
+			delete(m, k)
+		}
+	}
+}
